@@ -201,7 +201,9 @@ def gen_scenario(batch_seed, i, tier):
                                 'errno': rng.choice(('ENOSPC', 'EIO', 'EACCES'))})
     clock = {'t0': float(rng.randint(10 ** 6, 2 * 10 ** 9)), 'tz': rng.choice((0, -19800, 28800)),
              'mode': rng.choice(('frozen', 'jumping')), 'deltas': [rng.choice((1, 60, 86400, -3600)) for _ in range(3)]}
-    return {'prop': PROP, 'seed': seed, 'index': i, 'tier': tier, 'threads': threads, 'trace': trace, 'granularity': gran,
+    flavour = 'twin' if twin else ('idem_sweep' if (sequential and not focus and threads[0] and threads[0][-1]['op'] == 'reencode' and len(threads[0]) >= 20)
+                                   else ('focus_' + ('seq' if sequential else 'threads') if focus else ('mixed_seq' if sequential else 'mixed_threads')))
+    return {'prop': PROP, 'seed': seed, 'index': i, 'tier': tier, 'flavour': flavour, 'threads': threads, 'trace': trace, 'granularity': gran,
             'policy': policy, 'schedule': None, 'faults': faults, 'sink_faults': sink_faults, 'clock': clock,
             'bufsize': rng.choice((16, 512, 8192)), 'hashseed_probe': rng.random() < 0.5, 'hashseed': rng.randint(1, 10 ** 6), 'twin': twin}
 
@@ -266,7 +268,7 @@ def execute(sc):
     for t, k, spec in all_specs:
         key = core.digest(spec)
         if key not in goldens:
-            goldens[key] = core.run_forked(golden_of, (spec,), timeout=300)
+            goldens[key] = core.run_forked(golden_of, (spec,), timeout=120)
     counters['goldens'] = len(goldens)
     if sc.get('hashseed_probe'):
         probe = _hashseed_probe([spec for _, _, spec in all_specs], sc['hashseed'])
@@ -370,6 +372,7 @@ def execute(sc):
         'faults_fired': {}, 'granularity': {sc['granularity'] if sc['trace'] else 'untraced': 1},
         'policy': {sc['policy']['kind'] if sc['trace'] else 'sequential-history': 1},
         'new_module_attrs': {'max': stats['new_module_attrs']},
+        'flavour': {sc.get('flavour', 'unknown'): 1},
     })
     # "this rare condition was hit" probes: pre-emptions and injected faults that landed inside functions holding in-flight state
     probe_pre = counters.setdefault('preempted_inside', {})
@@ -519,13 +522,15 @@ def known(sc, viol):
 
 
 def coverage_rule():
-    return ('one run = 1-4 simulated clients (real threads, one baton) x 1-12 operations each (make*, helper factories, save to '
-            'stream/path/.svgz in all 12 kinds, data URIs, svg_inline, terminal, matrix_iter fully or half consumed, cli.main, refused '
-            'and malformed calls, re-encode with reported version/error/mask) against one shared library, file system and clock; '
-            '70% of the runs are pre-empted at seeded line (or, 15% of those, bytecode-instruction) boundaries with injected aborts, '
-            'MemoryErrors, clock jumps and sink faults, 30% are untraced sequential call histories; distinct = distinct digest of '
-            '(realised schedule, context-switch log, fired faults, per-operation results); non-trivial = at least one context switch '
-            'inside an operation, or a fired fault, or a sequential history of >= 2 operations')
+    return ('one run = 1-4 simulated clients (real threads, one baton) issuing make*/helper/save (12 kinds; stream, path, .svgz)/data-URI/'
+            'svg_inline/terminal/matrix_iter (fully or half consumed)/cli.main/refused+malformed calls/re-encode operations against one shared '
+            'library, file system and clock. Flavours (counters.flavour): mixed_threads and focus_threads (pre-empted at seeded line or, ~15%, '
+            'bytecode-instruction boundaries; policies geometric/fixed/starve/sequential), twin (same kind of call, different options, near-lockstep '
+            'round-robin slices of 1-8 steps), mixed_seq / focus_seq / idem_sweep (untraced sequential histories: related calls, 8-20 saves of one '
+            'writer, 10-28 symbols each re-encoded). Faults: aborts, MemoryErrors and clock jumps at seeded steps or inside named functions, sink '
+            'faults; 50% of the runs get a second set of goldens from a fresh interpreter under another PYTHONHASHSEED. distinct = distinct digest '
+            'of (realised schedule, context-switch log, fired faults, per-operation results); non-trivial = at least one context switch inside an '
+            'operation, or a fired fault, or a sequential history of >= 2 operations')
 
 
 def tier_params(tier):
